@@ -311,6 +311,12 @@ def check_property(pid, tier, seed, do_freeze=False, verbose=True):
         base = load_baseline(u)
         base_ok = set(base["functions_ok"]) if base else None
         funcs = r["functions"]
+        # the R2 model of the bitflags types (bits / contains / intersects / is_empty / union) is machinery, not an obligation about /repo:
+        # verified, but not counted
+        model = re.compile(r"::spirv::\w+::(bits|contains|intersects|is_empty|union)$")
+        if any(model.search(n) for n in funcs):
+            funcs = {n: f for n, f in funcs.items() if not model.search(n)}
+            r["functions_counted"] = funcs
         only_pats = spec.get("only_items", {}).get(u)
         if only_pats is not None:
             # this property shares the unit with others: only the obligations of its own items count
